@@ -85,3 +85,33 @@ def global_string_events(tid, debugid, str_id, text_bytes):
 
 def threadname_events(tid, text_bytes, code='TRACE_STRING_THREADNAME'):
     return [E(tid, code, q, data=d) for q, d in kmodel.simple_string_chunks(text_bytes)]
+
+
+def deliver(parser, real, cuts=None):
+    """hand a stream to one TracesParser in portions: portion k goes through feed_generator() (fully consumed) or, every
+    third portion, record by record through feed(). Where a live consumer cuts its batches is not part of the stream.
+    -> list aligned with `real`: the trace emitted at that record, or None"""
+    from .core import Violation
+    out = [None] * len(real)
+    if not cuts:
+        for j, e in enumerate(real):
+            out[j] = parser.feed(e)
+        return out
+    where = {id(e): j for j, e in enumerate(real)}
+    bounds = sorted({c % (len(real) + 1) for c in cuts}) + [len(real)]
+    pos = 0
+    for k, c in enumerate(bounds):
+        portion = real[pos:c]
+        if k % 3 == 2:
+            for j, e in zip(range(pos, c), portion):
+                out[j] = parser.feed(e)
+        else:
+            for t in parser.feed_generator(iter(portion)):
+                if t is None:
+                    continue
+                j = where.get(id(t.ktraces[-1])) if t.ktraces else None
+                if j is None or not pos <= j < c or out[j] is not None:
+                    raise Violation('window-ends', f'a trace emitted while records {pos}..{c - 1} were fed does not end with one of them: {str(t)[:120]!r}')
+                out[j] = t
+        pos = c
+    return out
